@@ -3,7 +3,7 @@
  * UINT32): real reserve_header_padding, _dbus_header_cache_check + _dbus_header_cache_revalidate,
  * find_field_for_modification, set_basic_field, _dbus_type_reader_set_basic (in-place branch
  * reader_set_basic_fixed_length -> _dbus_marshal_set_basic), correct_header_padding, _dbus_header_cache_invalidate_all,
- * then the real accessors.  Header image: valid per the reference, at most VERIF_N bytes, skeleton as in
+ * then the independent decoding of the result.  Header image: valid per the reference, at most VERIF_N bytes, skeleton as in
  * C01.hdr.exact.* plus concrete field codes (byte order, lengths, variant signatures, field codes constant; values,
  * message type, flags, serial symbolic).
  * DBusString length primitives: contract stubs (harness/c12_strstubs.h; CBMC's realloc/memmove models are out of reach).
@@ -56,7 +56,8 @@ void harness (void)
   __CPROVER_assume (field == DBUS_HEADER_FIELD_REPLY_SERIAL || field == DBUS_HEADER_FIELD_UNIX_FDS);
   __CPROVER_assume (RF.count[field] == 1);                                    /* the field exists: in-place branch */
   __CPROVER_assume (field != DBUS_HEADER_FIELD_REPLY_SERIAL || v != 0);         /* dbus_message_set_reply_serial's own precondition */
-  le = HDR_REF_LE (in_buf); v_at = RF.val_at[field];
+  le = HDR_REF_LE (in_buf); v_at = VERIF_VAT;      /* concrete value position of the skeleton, checked against the reference decoding: */
+  __CPROVER_assume (RF.val_at[field] == v_at);
   hd->str = in_buf; hd->len = in_len; hd->allocated = in_len + 8; hd->constant = 0; hd->locked = 0; hd->valid = 1; hd->align_offset = 0; in_buf[in_len] = 0;
   H.padding = (unsigned) (rhl - (16 + (int) hdr_ref_fields_len (in_buf)));
   for (i = 0; i <= DBUS_HEADER_FIELD_LAST; i++) { int p = nondet_int (); H.fields[i].value_pos = nondet_bool () ? _DBUS_HEADER_FIELD_VALUE_UNKNOWN : (RF.count[i] ? RF.val_at[i] : _DBUS_HEADER_FIELD_VALUE_NONEXISTENT); }  /* a consistent cache, partly unknown */
@@ -67,16 +68,23 @@ void harness (void)
   __CPROVER_assert (hd->len == in_len && hd->len % 8 == 0 && (int) H.padding == rhl - (16 + (int) hdr_ref_fields_len (in_buf)), "setfixed: header length and padding as before, length a multiple of 8 (success or failure)");
   for (i = 0; i < VERIF_N; i++)
     if (i < in_len && (!r || i < v_at || i >= v_at + 4)) __CPROVER_assert (in_buf[i] == old[i], "setfixed: every byte outside the edited value is unchanged (all bytes unchanged on failure)");
+  /* Re-concretisation (sound because of the assertions just made: each assignment writes the value that the byte
+   * was asserted to have): lets symbolic execution see the constant skeleton bytes again, which the symbolic-index
+   * writes of the string stubs hide. */
+  for (i = 0; i < VERIF_N; i++) if (i < in_len && (i < v_at || i >= v_at + 4)) in_buf[i] = old[i];
+  hd->len = in_len;
   if (r)
     {
       __CPROVER_assert (body_ref_u32 (in_buf, v_at, le) == v, "setfixed: the four value bytes are the new value in the header's byte order");
       for (i = 0; i <= DBUS_HEADER_FIELD_LAST; i++) __CPROVER_assert (H.fields[i].value_pos == _DBUS_HEADER_FIELD_VALUE_UNKNOWN, "setfixed: the position cache was invalidated");
       hdr_ref_walk (in_buf, in_len, &RF2);
       __CPROVER_assert (hdr_ref_valid_walked (in_buf, in_len, &rhl2, &RF2) == 1 && rhl2 == rhl, "setfixed: the serialised header is still valid per the reference decoder");
-      __CPROVER_assert (_dbus_header_get_field_basic (&H, field, DBUS_TYPE_UINT32, &got) && got == v, "setfixed: the edited field reads back as set");
-      for (c = 1; c <= DBUS_HEADER_FIELD_LAST; c++)
-        { int pos = -1; dbus_bool_t g = _dbus_header_get_field_raw (&H, c, NULL, &pos);
-          __CPROVER_assert ((g != 0) == (RF.count[c] > 0) && IMP (g, pos == RF.val_at[c]), "setfixed: every field is found where it was"); }
+      /* read-back: by the independent decoding of the new bytes.  (The real accessors on a valid header with an
+       * invalidated cache are the subject of C12.cache.revalidate.* and C01.hdr.exact.*; calling them here after the
+       * edit was measured infeasible: the real reader is explored on symbolic type codes.) */
+      __CPROVER_assert (RF2.count[field] == 1 && RF2.val_at[field] == v_at && RF2.type[field] == 'u' && body_ref_u32 (in_buf, RF2.val_at[field], le) == v, "setfixed: the edited field decodes to the value that was set");
+      for (c = 0; c <= DBUS_HEADER_FIELD_LAST; c++)
+        __CPROVER_assert (RF2.count[c] == RF.count[c] && RF2.val_at[c] == RF.val_at[c] && RF2.type[c] == RF.type[c], "setfixed: every field decodes where and as it did before");
       __CPROVER_assert (_dbus_header_get_serial (&H) == hdr_ref_serial (old) && _dbus_header_get_message_type (&H) == old[1] && in_buf[2] == old[2], "setfixed: serial, message type and flags unchanged");
       REACH("edited"); if (field == DBUS_HEADER_FIELD_UNIX_FDS) REACH("edited-unix-fds"); if (v_at == 28) REACH("edited-second-field");
     }
